@@ -99,6 +99,7 @@ def test_callable_spec(callable, callable_args, callable_kwargs):
             # the original error
             raise
 
+    bound_arg = None
     if args and (
             # For callable objects, which have a __call__(self) method
             hasattr(callable, '__call__') or
@@ -106,6 +107,8 @@ def test_callable_spec(callable, callable_args, callable_kwargs):
             inspect.ismethod(callable)
     ):
         # Strip 'self'
+        if inspect.ismethod(callable) or not inspect.isfunction(callable):
+            bound_arg = args[0]
         args = args[1:]
 
     arg_usage = dict([(arg, 0,) for arg in args])
@@ -166,6 +169,18 @@ def test_callable_spec(callable, callable_args, callable_kwargs):
     body_params = cherrypy.serving.request.body.params or {}
     body_params = set(body_params.keys())
     qs_params = set(callable_kwargs.keys()) - body_params
+
+    if bound_arg is not None and bound_arg in callable_kwargs:
+        # A request parameter named like the bound first argument ('self')
+        # can never be passed on: the call fails with "got multiple values
+        # for argument" even when the handler takes **kwargs. Like any
+        # other unexpected parameter it is a 404 when it came with the
+        # query string and a 400 when it came with the body.
+        message = None
+        if show_mismatched_params:
+            message = 'Unexpected parameter: %s' % bound_arg
+        raise cherrypy.HTTPError(
+            404 if bound_arg in qs_params else 400, message=message)
 
     if multiple_args:
         if qs_params.intersection(set(multiple_args)):
